@@ -2,4 +2,4 @@
 # tools/try_round.sh <dir with Cxx subdirs> [ids...]: confirm and check every finished seeded change of a round, 3 at a time
 base=$1; shift
 ids=${*:-$(ls $base)}
-for i in $ids; do [ -f $base/$i/meta.json ] && echo $i; done | xargs -P 3 -I{} sh -c "/verif/tools/try_seeded.sh {} $base/{} > /tmp/try_{}.log 2>&1; echo \"{}: \$(grep -E 'demo rc|passed|failed' /tmp/try_{}.log | tr '\n' ' ') | \$(grep -E 'tier=' /tmp/try_{}.log | tail -1 | cut -c1-60) | \$(grep -E '^violation|HARNESS' /tmp/try_{}.log | head -1 | cut -c1-220)\""
+for i in $ids; do [ -f $base/$i/meta.json ] && echo $i; done | xargs -P 3 -I{} sh -c "VERIF_DIR=${VERIF_DIR:-/verif} /verif/tools/try_seeded.sh {} $base/{} > /tmp/try_{}.log 2>&1; echo \"{}: \$(grep -E 'demo rc|passed|failed' /tmp/try_{}.log | tr '\n' ' ') | \$(grep -E 'tier=' /tmp/try_{}.log | tail -1 | cut -c1-60) | \$(grep -E '^violation|HARNESS' /tmp/try_{}.log | head -1 | cut -c1-220)\""
